@@ -604,9 +604,24 @@ pub fn plant_giant(rng: &mut Rng, stream: &mut Stream) {
             }
             let t64 = base + n + 1;
             seq.push(MInst { opcode: s.op("TypeInt"), rtype: None, rid: Some(t64), ops: vec![MOp::W(s.k_lit32, 64), MOp::W(s.k_lit32, 1)] });
+            let bystander_function = |seq: &mut Vec<MInst>, id0: u32| {
+                // a complete (empty) function: structural boundaries between the declarations and their consumers
+                seq.push(MInst { opcode: s.op("Function"), rtype: Some(base), rid: Some(id0), ops: vec![MOp::W(s.kind("FunctionControl"), 0), MOp::W(s.k_idref, base)] });
+                seq.push(MInst { opcode: s.op("Label"), rtype: None, rid: Some(id0 + 1), ops: vec![] });
+                seq.push(MInst { opcode: s.op("Return"), rtype: None, rid: None, ops: vec![] });
+                seq.push(MInst { opcode: s.op("FunctionEnd"), rtype: None, rid: None, ops: vec![] });
+            };
+            let by = rng.below(3);
+            if by == 1 {
+                bystander_function(&mut seq, t64 + 4);
+            }
             seq.push(MInst { opcode: s.op("Undef"), rtype: Some(t64), rid: Some(t64 + 1), ops: vec![] });
             seq.push(MInst { opcode: s.op("Constant"), rtype: Some(t64), rid: Some(t64 + 2), ops: vec![MOp::L64(7)] });
             seq.push(MInst { opcode: s.op("SpecConstant"), rtype: Some(t64), rid: Some(t64 + 3), ops: vec![MOp::L64(u64::MAX)] });
+            if by == 2 {
+                bystander_function(&mut seq, t64 + 4);
+                seq.push(MInst { opcode: s.op("Constant"), rtype: Some(t64), rid: Some(t64 + 6), ops: vec![MOp::L64(11)] });
+            }
             if kind == 5 {
                 // a switch on the late 64-bit value (parser-level only: a terminator outside a block is the loader's business)
                 seq.push(MInst { opcode: s.op("Switch"), rtype: None, rid: None, ops: vec![MOp::W(s.k_idref, t64 + 1), MOp::W(s.k_idref, 1), MOp::L64(0xAAAA_BBBB_CCCC_DDDD), MOp::W(s.k_idref, 2)] });
@@ -614,7 +629,7 @@ pub fn plant_giant(rng: &mut Rng, stream: &mut Stream) {
             for (j, i) in seq.into_iter().enumerate() {
                 stream.insts.insert(at + j, i);
             }
-            stream.header.bound += n + 8;
+            stream.header.bound += n + 10;
             return;
         }
         _ => {
